@@ -7,6 +7,7 @@
   fixes/C10-F34 (rebase of an empty set) applied.
 -/
 import PgProofs.KeyPath
+import PgProofs.KeyPathSet
 namespace Pg.C10
 
 /-! ## 1. parse ∘ format -/
@@ -179,5 +180,127 @@ theorem C10_lt_total_partial (p q : Path) (c : compat p q = true) (hne : p ≠ q
 
 example : compat [.s ['a'], .i 1, .s ['b']] [.s ['a'], .i 2] = true := by decide
 example : pathLt [.s ['a'], .i 2] [.s ['a'], .i 10] = true := by decide
+
+/-! ## 3. `KeyPathSet` behaves as a mathematical set
+
+The trie is the one the code uses (nested dicts, end marker under the key `'$'`). `Trie.has t` is the
+characteristic function of the set `t` represents; `Trie.wf` is the representation invariant
+(distinct keys, `'$'` ↦ `True`, no dead branches). Every operation preserves `wf` and acts on `has`
+as the corresponding set operation — for all tries and all paths without the string key `'$'`. -/
+
+open Trie
+
+/-- The empty set. -/
+theorem C10_set_empty (q : Path) : wf Trie.empty = true ∧ has Trie.empty q = false ∧ Trie.empty.nonEmpty = false := by
+  refine ⟨rfl, ?_, rfl⟩
+  cases q <;> rfl
+
+/-- `p in s` never raises and is membership. -/
+theorem C10_set_contains (t : Trie) (p : Path) (h : wf t = true) (hp : dollarFree p = true) :
+    Trie.contains t p = .ok (has t p) := contains_eq_has p t h hp
+
+/-- `add`: the set becomes `s ∪ {p}`, the return value says whether `p` was new, the invariant is kept. -/
+theorem C10_set_add (t : Trie) (p : Path) (h : wf t = true) (hp : dollarFree p = true) :
+    ∃ t', Trie.add false t p = .ok (t', !has t p) ∧ wf t' = true ∧
+      ∀ q, dollarFree q = true → has t' q = (decide (q = p) || has t q) := by
+  obtain ⟨t', a, b, _, d⟩ := add_spec p t h hp
+  exact ⟨t', a, b, d⟩
+
+/-- `remove`: the set becomes `s \ {p}`, the return value says whether `p` was a member, emptied
+branches are pruned (invariant kept). -/
+theorem C10_set_remove (t : Trie) (p : Path) (h : wf t = true) (hp : dollarFree p = true) :
+    ∃ t', Trie.remove t p = .ok (t', has t p) ∧ wf t' = true ∧
+      ∀ q, dollarFree q = true → has t' q = (!decide (q = p) && has t q) :=
+  remove_spec p t h hp
+
+/-- `update` / `union` / `+`. -/
+theorem C10_set_union (a b : Trie) (ha : wf a = true) (hb : wf b = true) :
+    wf (union a b) = true ∧ ∀ q, dollarFree q = true → has (union a b) q = (has a q || has b q) :=
+  ⟨merge_wf _ a b (Nat.le_refl _) ha hb, fun q hq => merge_has q a b ha hb hq⟩
+
+/-- `intersection(_update)`. -/
+theorem C10_set_intersection (a b : Trie) (ha : wf a = true) (hb : wf b = true) :
+    wf (intersection a b) = true ∧
+      ∀ q, dollarFree q = true → has (intersection a b) q = (has a q && has b q) :=
+  ⟨removeDiff_wf _ a b (Nat.le_refl _) ha hb, fun q hq => removeDiff_has q a b ha hb hq⟩
+
+/-- `difference(_update)`. -/
+theorem C10_set_difference (a b : Trie) (ha : wf a = true) (hb : wf b = true) :
+    wf (difference a b) = true ∧
+      ∀ q, dollarFree q = true → has (difference a b) q = (has a q && !has b q) :=
+  ⟨removeSame_wf _ a b (Nat.le_refl _) ha hb, fun q hq => removeSame_has q a b ha hb hq⟩
+
+/-- `rebase(p)`: the set becomes `{p + r | r ∈ s}` (mirrors the tree with fix C10-F34: an empty set
+stays empty; before the fix the invariant was lost on the empty set). -/
+theorem C10_set_rebase (t : Trie) (p : Path) (h : wf t = true) (hp : dollarFree p = true) :
+    wf (rebase t p) = true ∧
+      ∀ q, has (rebase t p) q = (match dropPrefix q p with
+        | some r => has t r
+        | none => false) :=
+  rebase_spec p t h hp
+
+/-- `dropPrefix` is what it says. -/
+theorem C10_dropPrefix (q p r : Path) : dropPrefix q p = some r ↔ q = p ++ r := by
+  induction p generalizing q with
+  | nil => cases q <;> simp [dropPrefix, eq_comm]
+  | cons b p ih =>
+    cases q with
+    | nil => simp [dropPrefix]
+    | cons a q =>
+      simp only [dropPrefix]
+      by_cases hab : a = b
+      · subst hab; simp [ih]
+      · simp [hab]
+
+/-- `__iter__` yields exactly the members (each yielded path is `'$'`-free and a member; each member
+is yielded). -/
+theorem C10_set_iter (t : Trie) (q : Path) (h : wf t = true) :
+    q ∈ toList t ↔ (dollarFree q = true ∧ has t q = true) := by
+  unfold toList
+  rw [mem_paths t [] q h]
+  constructor
+  · rintro ⟨r, rfl, a, b⟩; exact ⟨by simpa using a, by simpa using b⟩
+  · rintro ⟨a, b⟩; exact ⟨q, by simp, a, b⟩
+
+/-- `bool(s)` is non-emptiness of the represented set (this is where "no dead branches" matters). -/
+theorem C10_set_bool (t : Trie) (h : wf t = true) :
+    t.nonEmpty = true ↔ ∃ q, dollarFree q = true ∧ has t q = true := by
+  constructor
+  · intro ht; exact exists_has_of_truthy t h ht
+  · rintro ⟨q, _, hq⟩
+    cases ht : t.nonEmpty with
+    | true => rfl
+    | false =>
+      rw [has_of_not_truthy h ht q] at hq
+      cases hq
+
+/-- FULL statement of `add` without the `'$'` exclusion … -/
+def C10_set_add_Full : Prop :=
+  ∀ (t : Trie) (p : Path), wf t = true →
+    ∃ t', Trie.add false t p = .ok (t', !has t p) ∧ ∀ q, Trie.contains t' q = .ok (decide (q = p) || has t q)
+
+/-- … is false (finding F19): adding the one-key path `'$'` to the empty set makes the *root* path
+a member — the key collides with the end marker. -/
+theorem C10_set_dollar_counterexample : ¬ C10_set_add_Full := by
+  intro h
+  obtain ⟨t', ha, hc⟩ := h Trie.empty [dollar] rfl
+  have h1 : Trie.add false Trie.empty [dollar] = .ok (.node [(dollar, .node [(dollar, .mark)])], true) := rfl
+  rw [h1] at ha
+  cases ha
+  have := hc []
+  revert this
+  decide
+
+/-- F19, second face: on a set that contains the root path, adding `'$'` raises AssertionError;
+and iterating `{ '$' }` yields the root path. -/
+theorem C10_set_dollar_assertion :
+    (Trie.add false (.node [(dollar, .mark)]) [dollar]).map (fun _ => ()) = .error .assertion ∧
+    toList (.node [(dollar, .node [(dollar, .mark)])]) = [[]] := by
+  constructor <;> rfl
+
+/-! Non-vacuity: a well-formed trie with several members, `'$'`-free paths. -/
+example : wf (.node [(.s ['a'], .node [(dollar, .mark), (.i 0, .node [(dollar, .mark)])]), (dollar, .mark)]) = true := by
+  decide
+example : dollarFree [.s ['a'], .i 0, .s ['x', '.', 'y']] = true := by decide
 
 end Pg.C10
